@@ -29,6 +29,7 @@ pub fn gen_c20_e4(rng: &mut Rng, _tier: Tier) -> J {
         17 => sc.inner_steps = Some(0),
         18 => sc.group = rng.pick(&["p3", "P1", "pg", ""]).to_string(),
         19 if rng.chance(0.5) => sc.fault = "stale-output".into(),
+        19 if rng.chance(0.5) => sc.fault = "start-config-other-group".into(),
         _ => sc.fault = "start-config-missing".into(),
     }
     sc.to_json().set("mode", J::str("cli"))
